@@ -83,6 +83,13 @@ def events():
         ("xta_sourceless_first_edge", {"kind": "xta", "buf": "process T1() { state T1_L0, T1_L2, A, B; init T1_L0; trans -> T1_L0 { }, -> B { }; }\nsystem T1;\n"}),
         ("xta_old_sourceless_first_edge", {"kind": "xta", "newxta": False,
                                            "buf": "process T1 { state T1_L0, T1_L2, A, B; init T1_L0; trans -> A { }; }\nsystem T1;\n"}),
+        # texts that end inside an array declarator with type-indexed dimensions, and victims whose first declarator is an array
+        # (no dimension-less declarator, no built-in preamble before it)
+        ("xta_old_truncated_in_array", {"kind": "xta", "newxta": False, "buf": "int a[int[0,1]][int[0,1]]["}),
+        ("decl_truncated_in_array", {"kind": "block", "builder": "doc", "nopreamble": True, "part": P["S_DECLARATION"],
+                                     "text": "int a[int[0,1]][int[0,1]][int[0,1]]["}),
+        ("xta_old_array_first", {"kind": "xta", "newxta": False, "buf": "int b[3]; process P { state s; init s; }\nsystem P;\n"}),
+        ("params_array_first", {"kind": "block", "builder": "doc", "nopreamble": True, "part": P["S_PARAMETERS"], "text": "int p[3], int &q[2][2]"}),
         ("xta_unknown_source", {"kind": "xta", "buf": "process P() { state A, B; init A; trans A -> B { }, -> A { guard 1 ( ; }; }\nsystem P;\n"}),
     ]
     return ev
@@ -307,7 +314,7 @@ def main():
                         "explicit-state search over call histories executed on the real library: %d events (XML/XTA/query/block entry "
                         "points; accepted, diagnosed, throwing XMLReaderError/XMLDocError/runtime_error/TypeException, unterminated "
                         "comments, 3.x syntax, client builder aborting inside a comment / an array declarator / a label) from counter "
-                        "seeds %s; all histories of length <= %d unpruned, then BFS to depth %d merging histories that leave identical "
+                        "seeds %s; all histories of length <= %d unpruned, then BFS to depth %d (second seed in the quick tier: one less) merging histories that leave identical "
                         "process-global state (parser statics, flex state, tracker, errno); every call compared with the same call "
                         "made first in a fresh process.  Alignment sweep of the position counter across 2^31 and 2^32 for every event."
                         % (n, [s for s, _ in SEEDS] + [WRAP_SEED[0]], L, DEPTH))
@@ -340,10 +347,10 @@ def main():
     # (2) BFS on the exact global-state digest
     states_total = 0
     depth_done = {}
-    for seedname, seed in BFS_SEEDS:
+    for bi, (seedname, seed) in enumerate(BFS_SEEDS):
         seen = {}
         frontier = [[]]
-        for depth in range(1, DEPTH + 1):
+        for depth in range(1, (DEPTH if (bi == 0 or t == "thorough") else DEPTH - 1) + 1):
             if rep.out_of_time():
                 break
             chunk = max(5, min(400, len(frontier) // (ncpu * 3) + 1))
